@@ -66,7 +66,7 @@ def run(ctx):
         'Lean SHA-256 (Core/HashSha2.lean), tied to hashlib by this run (every compared string carries a checksum; `cks` stream) and to '
         'published vectors by kernel-evaluated known-answer examples in Props/C09.lean; nothing is proved about SHA-256 itself',
         'base58 2.1.1 library: re-implemented in Lean (b58enc/b58dec, proved inverse), tied to the library by sampling only',
-        'str/bytes coercions of _validate (scrub_input, str.encode) are outside the model: the harness passes bytes',
+        'str/bytes coercions of _validate (scrub_input, str.encode) are outside the model: the model sees bytes; the harness also calls the validators with str and with hex spellings and judges those by the oracle',
     ]
 
     def real_decode(s):
@@ -124,6 +124,16 @@ def run(ctx):
                     if raw[:len(p)] == p:
                         payloads.append(raw[len(p):len(p) + n])
                         ctx.count('steered-into-foreign-prefix', f'{h.decode()}->{h2.decode()}')
+        # payloads that CONTAIN the kind's own binary prefix (at the start, in the middle, at the very end, twice): the prefix is cut
+        # off by position, never searched for
+        if n >= len(p):
+            for off in sorted({0, 1, (n - len(p)) // 2, n - len(p)} & set(range(0, n - len(p) + 1))):
+                base_ = bytearray(rng.bytes_(n))
+                base_[off:off + len(p)] = p
+                payloads.append(bytes(base_))
+            if n >= 2 * len(p):
+                payloads.append((p * (n // len(p) + 1))[:n])
+            ctx.count('payload-contains-own-binary-prefix', h.decode())
         for v in payloads:
             real = real_encode(v, h)
             add('encode', f'enc {hx(h)} {hx(v)}',
@@ -175,6 +185,28 @@ def run(ctx):
                 ctx.violation(f'validator:{name}:{"accepts" if got else "rejects"}:{h.decode()}',
                               f'{name}({s.decode()}) = {got}; the string is a valid {h.decode()} ({"not " if not want else ""}one of {[p.decode() for p in INTENDED[name]]})',
                               {'op': name, 'string': s.decode('latin1'), 'kind': h.decode(), 'got': got, 'expected': want})
+
+    # ---- argument forms of the validators: the same text as `str` and as `bytes`; and the HEX SPELLING of a valid text
+    # ('747a31…' / '0x747a31…'), which is not a Base58Check encoding of anything: validators take text, they do not un-hex it
+    for (row, v, s0) in valid[::(17 if quick else 5)]:
+        h = row[0]
+        forms = [('str', s0.decode()), ('bytes', s0), ('hex-of-text:str', s0.hex()), ('0xhex-of-text:str', '0x' + s0.hex()),
+                 ('hex-of-text:bytes', s0.hex().encode()), ('upper-hex-of-text:str', s0.hex().upper())]
+        for name in preds:
+            if not any(s0.startswith(pp) for pp in INTENDED[name]):
+                continue
+            for fname, arg in forms:
+                try:
+                    got = bool(getattr(enc, name)(arg))
+                except Exception as e:  # noqa: BLE001
+                    got = f'{type(e).__name__}'
+                want = (h in INTENDED[name]) if fname in ('str', 'bytes') else False
+                ctx.case({'op': name, 'form': fname, 'string': s0.decode('latin1')})
+                ctx.count('validator-argument-form', fname)
+                if got != want:
+                    ctx.violation(f'validator:{name}:argument-form:{fname}',
+                                  f'{name}({arg!r}) = {got}, expected {want}: the argument is {"the valid " + h.decode() + " text" if fname in ("str", "bytes") else "the hex spelling of a text, not a Base58Check string"}',
+                                  {'op': name, 'form': fname, 'argument': arg if isinstance(arg, str) else arg.decode('latin1'), 'got': got, 'expected': want})
 
     # ---- corruption stream ---------------------------------------------------------------------
     def corruptions(row, v, s):
